@@ -71,6 +71,7 @@ class Injector:
         self.active = True
         self.die_hook = die_hook
         self.src_fail = src_fail
+        self.dead = False       # simulated kill: every later primitive is suppressed
 
     def role(self, path):
         path = os.fspath(path)
@@ -92,6 +93,10 @@ class Injector:
         self.trace[i][3] = out
 
     def die(self):
+        if self.die_hook is None:
+            # simulated kill (in-process): nothing the dying code still tries has any effect
+            self.dead = True
+            raise Die()
         self.die_hook(self)
         os._exit(77)
 
@@ -118,6 +123,8 @@ class FaultyFileIO(io.FileIO):
     def write(self, b):
         b = bytes(b)
         inj = self._inj
+        if inj.dead:
+            return len(b)
         if not inj.active:
             return super().write(b)
         i, act = inj.step('write', self._role, b)
@@ -138,6 +145,8 @@ class FaultyFileIO(io.FileIO):
 
     def truncate(self, size=None):
         inj = self._inj
+        if inj.dead:
+            return size
         if not inj.active:
             return super().truncate(size)
         i, act = inj.step('truncate', self._role, size)
@@ -153,7 +162,7 @@ class FaultyFileIO(io.FileIO):
         if self.closed:
             return super().close()
         inj = self._inj
-        if not inj.active:
+        if inj.dead or not inj.active:
             return super().close()
         i, act = inj.step('close', self._role)
         if act:
@@ -169,6 +178,8 @@ class FaultyFileIO(io.FileIO):
 def make_open(inj, real_open=builtins.open):
     def fopen(file, mode='r', buffering=-1, encoding=None, errors=None, newline=None, closefd=True, opener=None):
         role = inj.role(file) if isinstance(file, (str, bytes, os.PathLike)) else None
+        if inj.dead:
+            raise Die()
         if role is None or not inj.active:
             return real_open(file, mode, buffering, encoding, errors, newline, closefd, opener)
         text = 'b' not in mode
@@ -201,6 +212,8 @@ class _PathProxy:
     def getsize(self, path):
         inj = self._inj
         role = inj.role(path)
+        if inj.dead:
+            raise Die()
         if role is None or not inj.active:
             return os.path.getsize(path)
         i, act = inj.step('getsize', role)
@@ -224,6 +237,8 @@ class _OsProxy:
     def remove(self, path):
         inj = self._inj
         role = inj.role(path)
+        if inj.dead:
+            return None
         if role is None or not inj.active:
             return os.remove(path)
         i, act = inj.step('unlink', role)
@@ -294,6 +309,9 @@ def make_record(body, uri='urn:x-c06:record'):
     r = WARCRecord()
     r.set_common_fields('resource', 'application/octet-stream')
     r.fields['WARC-Target-URI'] = uri
+    # deterministic record (same bytes in every run of the same case)
+    r.fields['WARC-Date'] = '2026-01-01T00:00:00Z'
+    r.fields['WARC-Record-ID'] = '<urn:uuid:00000000-0000-4000-8000-%012d>' % (len(body) % 10 ** 12)
     r.block_file = io.BytesIO(body)
     r.set_content_length()
     return r
@@ -383,11 +401,14 @@ def _run_inproc(env, record, schedule, trace_out=None):
     inj = Injector(env.warc, schedule)
     inj.bufsize = env.bufsize
     status = 'done'
-    with patched(inj):
-        try:
-            env.rec.write_record(record)
-        except OSError:
-            status = 'raised'
+    try:
+        with patched(inj):
+            try:
+                env.rec.write_record(record)
+            except OSError:
+                status = 'raised'
+    except Die:
+        status = 'died'
     return status, inj.trace
 
 
@@ -450,7 +471,7 @@ def run_real(case):
     if case.get('src_fail') is not None:
         record = SourceFails(record, case['src_fail'])
     schedule = sched_of(case)
-    if any(a[0] == 'die' for a in schedule.values()):
+    if any(a[0] == 'die' for a in schedule.values()) and case.get('kill_mode', 'fork') == 'fork':
         status, trace = _run_child(env, record, schedule)
     else:
         status, trace = _run_inproc(env, record, schedule)
@@ -632,7 +653,7 @@ def phases(trace):
 
 # ------------------------------------------------------------------ one batch: real runs, model, compare
 def case_key(case):
-    return (case['stream'], case['compress'], case.get('bufsize'), case.get('prior'), case['body_len'],
+    return (case['stream'], case.get('kill_mode', 'fork'), case['compress'], case.get('bufsize'), case.get('prior'), case['body_len'],
             case.get('body_seed', 0), tuple(sorted(sched_of(case).items())), case.get('src_fail'))
 
 
@@ -673,8 +694,8 @@ def variants(entry, kinds=('fail', 'die'), rich=True):
     return [(a, k) for a in kinds for k in ks]
 
 
-def base_case(stream, compress, bufsize, prior, body_len, body_seed=0, schedule=None, src_fail=None):
-    return {'stream': stream, 'compress': compress, 'bufsize': bufsize, 'prior': prior, 'body_len': body_len,
+def base_case(stream, compress, bufsize, prior, body_len, body_seed=0, schedule=None, src_fail=None, kill_mode='fork'):
+    return {'kill_mode': kill_mode, 'stream': stream, 'compress': compress, 'bufsize': bufsize, 'prior': prior, 'body_len': body_len,
             'body_seed': body_seed, 'schedule': {str(k): list(v) for k, v in (schedule or {}).items()},
             'src_fail': src_fail}
 
@@ -683,9 +704,13 @@ def stream_of(schedule):
     return 'kill' if any(a[0] == 'die' for a in schedule.values()) else 'append'
 
 
-def sweep(ctx, compress, bufsize, prior, body_len, body_seed, doubles, rng):
-    """Fault-free run, then a fault / kill at EVERY primitive, then second faults after every single fault."""
-    mk = lambda sch, src=None: base_case(stream_of(sch), compress, bufsize, prior, body_len, body_seed, sch, src)
+def sweep(ctx, compress, bufsize, prior, body_len, body_seed, doubles, rng, multi_kill='fork'):
+    """Fault-free run, then a fault / kill at EVERY primitive, then second faults after every single fault.
+    Single kills are always real (forked child, os._exit); `multi_kill='sim'` runs the kills of the
+    multi-fault schedules in-process (Die + every later primitive suppressed) -- the quick tier."""
+    def mk(sch, src=None):
+        km = 'fork' if len(sch) <= 1 else multi_kill
+        return base_case(stream_of(sch), compress, bufsize, prior, body_len, body_seed, sch, src, km)
     base = run_cases(ctx, [mk({})])[0]
     n = len(base['trace'])
     singles = []
@@ -696,6 +721,16 @@ def sweep(ctx, compress, bufsize, prior, body_len, body_seed, doubles, rng):
     for p in sorted({0, 2, npieces - 1, 10 ** 6}):
         singles.append(mk({}, p))
     res1 = run_cases(ctx, singles)
+    if multi_kill == 'sim':
+        # the in-process kill simulation must leave exactly what the real kill leaves
+        sims = [dict(c, kill_mode='sim') for c in singles if c['stream'] == 'kill']
+        reals = [r for c, r in zip(singles, res1) if c['stream'] == 'kill']
+        for c, rs, rr in zip(sims, run_cases(ctx, sims), reals):
+            # (record id and date differ between two runs: compare everything but the new bytes themselves)
+            shape = lambda r: (r['status'], r['text'], r['journal'], None if r['archive'] is None else len(r['archive']),
+                               (r['archive'] or b'')[:len(r['before'] or b'')])
+            if shape(rs) != shape(rr):
+                raise Infra('C06: simulated kill differs from the real kill for %r' % public_case(c))
     ctx.tag('sweep:configs')
     ctx.tag('sweep:primitives', n)
     if not doubles:
@@ -841,8 +876,9 @@ def run(ctx):
             if thorough:
                 doubles = 'all' if small else 300
             else:
-                doubles = ctx.scale(60, 60) if small else 0
-            sweep(ctx, compress, bufsize, prior, body_len, rng.randrange(1000), doubles, rng)
+                doubles = ctx.scale(100, 100) if small else 0
+            sweep(ctx, compress, bufsize, prior, body_len, rng.randrange(1000), doubles, rng,
+                  multi_kill='fork' if thorough else 'sim')
         run_startup(ctx, gen_startup(rng, ctx.scale(150, 3000)))
         ctx.sample({'stream': 'append', 'example': base_case('append', True, 64, 2, 200, 1, {7: ('fail', 3)})})
         ctx.sample({'stream': 'kill', 'example': base_case('kill', False, None, 3, 9000, 0, {6: ('die', 100)})})
